@@ -29,6 +29,7 @@ package series
 //@   requires tsoWf(tsoBuf, tsoVersion, nTsids) && high < nTsids && low <= high
 //@   loop 1:
 //@     invariant old(low) <= low && high <= old(high) && low <= high + 1 && high < nTsids
+//@     decreases int(high) + 1 - int(low)
 //@     invariant forall(i, int(old(low)), int(low), tsoAt(old(tsoBuf), tsoVersion, i) < tsid)
 //@     invariant forall(i, int(high) + 1, int(old(high)) + 1, tsoAt(old(tsoBuf), tsoVersion, i) > tsid)
 //@     invariant samebase(tsoBuf[0:0], old(tsoBuf)[tsoHdr(tsoVersion):tsoHdr(tsoVersion)]) && len(tsoBuf) == len(old(tsoBuf)) - tsoHdr(tsoVersion)
@@ -66,6 +67,7 @@ package series
 //@   requires tsoShape(tsoBuf, tsoVersion, nTsids) && high < nTsids && low <= high
 //@   loop 1:
 //@     invariant old(low) <= low && high <= old(high) && low <= high + 1 && high < nTsids
+//@     decreases int(high) + 1 - int(low)
 //@     invariant samebase(tsoBuf[0:0], old(tsoBuf)[tsoHdr(tsoVersion):tsoHdr(tsoVersion)]) && len(tsoBuf) == len(old(tsoBuf)) - tsoHdr(tsoVersion)
 //@   ensures [a-found-index-is-inside-the-window] implies(result0, low <= result1 && result1 <= high)
 //@   pure
